@@ -572,7 +572,9 @@ def run(ck, F, tier):
     # for distances d (already recorded for the reached node), path lengths pl (of the path arriving there) and bounds max in 0..4
     from ..symx import NotEvaluable
     lb = F.body("sparse::bfs::BFSContext::<'_>::local_girth")
-    tl = Tracer(F, r"std::collections::VecDeque::<T, A>::(pop_front|push_back)", mode="int")
+    # private helpers of the module (the neighbour iterator that builds the next path heads) are expanded, so that the length of the
+    # arriving path is read as (length of the popped head) + 1 whichever function computes it
+    tl = Tracer(F, r"std::collections::VecDeque::<T, A>::(pop_front|push_back)", mode="int", inline=lambda p_: F.private_helper(p_, "sparse::bfs::"))
     envl = {}
     for p_, nm_ in zip(lb.params, ("self", "max")):
         tl.bind(p_, var(nm_), envl)
@@ -581,23 +583,29 @@ def run(ck, F, tier):
     pushes_l = [e for e in tl.events if e.callee.endswith("push_back")]
     stores_l = [e for e in tl.events if e.callee == "<assign>"]
 
-    def lg_grid(d, pl, mx):
-        return Grid({"max": mx}, {".path_length": lambda *a_: pl, "get_node_mut": lambda *a_: ("Some", d) if d is not None else "None",
-                                  "pop_front": lambda *a_: ("Some", "HEAD"), ".node": lambda *a_: "NODE", "iter": lambda *a_: "NEXT", "elem": lambda *a_: "NH"})
+    def lg_grid(d, L, mx):
+        dist = ("Some", d) if d is not None else "None"
+        # the reached node is Row(0); its recorded distance is `dist` whether read through get_node_mut or from the distance vectors
+        return Grid({"max": mx}, {".path_length": lambda *a_: L, "get_node_mut": lambda *a_: dist, "index": lambda *a_: dist,
+                                  "pop_front": lambda *a_: ("Some", "HEAD"), ".node": lambda *a_: ("Row", 0), ".parent": lambda *a_: "None",
+                                  "iter": lambda *a_: "NEXT", "elem": lambda *a_: ("Row", 0), "elem_filter": lambda *a_: ("Row", 0),
+                                  "elem_map": lambda *a_: ("Row", 0)})
     okb = okp = oks = len(rets_l) == 1 and len(pushes_l) == 1 and len(stores_l) == 1 and retl == ("variant", "None")
     whyb = ""
     try:
         if okb:
-            for d, pl, mx in product(range(4), range(1, 5), range(5)):
-                g = lg_grid(d, pl, mx)
+            for d, L, mx in product(range(4), range(0, 4), range(6)):
+                pl = L + 1          # the path that arrives at the neighbour is one edge longer than the popped head's
+                g = lg_grid(d, L, mx)
                 fired = g.holds(rets_l[0].guards)
                 val = g.value(rets_l[0].args[0]) if fired else None
                 want = ("Some", d + pl) if d + pl <= mx else "None"
                 if not fired or val != want or g.holds(pushes_l[0].guards) or g.holds(stores_l[0].guards):
                     okb, whyb = False, " ; at (recorded distance, path length, max) = %r the search returns %r, required %r" % ((d, pl, mx), val, want)
                     break
-            for pl, mx in product(range(1, 5), range(5)):
-                g = lg_grid(None, pl, mx)
+            for L, mx in product(range(0, 4), range(6)):
+                pl = L + 1
+                g = lg_grid(None, L, mx)
                 if g.holds(rets_l[0].guards):
                     okb, whyb = False, " ; the search returns at a node that had no recorded distance"
                 stored = g.holds(stores_l[0].guards) and g.value(stores_l[0].args[1]) == ("Some", pl)
